@@ -13,6 +13,7 @@ import (
 
 	"verif/deepdump"
 	"verif/explore"
+	"verif/sched"
 )
 
 // ---------------------------------------------------------------------------
@@ -33,41 +34,102 @@ var (
 	dV6 = []net.IP{net.ParseIP("2001:db8::1"), net.ParseIP("2001:db8::2")}
 )
 
-type dsAlloc struct {
+// dsAlloc is the address backend. What it hands out is planned per session by the harness
+// (plan[sessionID]); it keeps its own books: an address is refused while another session still
+// holds it and becomes available again when the manager RELEASES it. Under Engine B every
+// backend call is a scheduling point (the real backend is a slow network round trip).
+type dsPlan struct {
 	v4, v6       net.IP
 	v4err, v6err bool
 }
 
+type dsAlloc struct {
+	mu   sync.Mutex
+	plan map[string]dsPlan
+	held map[string]string // address -> session id
+}
+
 var errBackend = errors.New("address backend unavailable")
 
+func spt(label string) {
+	if x := sched.Active(); x != nil && !x.Aborted() {
+		x.Point(label)
+	}
+}
+
+func (f *dsAlloc) take(ip net.IP, id string) error {
+	f.mu.Lock()
+	defer f.mu.Unlock()
+	if o, used := f.held[ip.String()]; used && o != id {
+		return fmt.Errorf("%s is still allocated to another session", ip)
+	}
+	for a, o := range f.held { // a session holds one address per family: handing out another frees the old one
+		if o == id && (net.ParseIP(a).To4() != nil) == (ip.To4() != nil) && a != ip.String() {
+			delete(f.held, a)
+		}
+	}
+	f.held[ip.String()] = id
+	return nil
+}
+
+func (f *dsAlloc) planOf(id string) dsPlan { f.mu.Lock(); defer f.mu.Unlock(); return f.plan[id] }
+
 func (f *dsAlloc) AllocateIPv4(ctx context.Context, s *subscriber.Session, pool string) (net.IP, net.IPMask, net.IP, error) {
-	if f.v4err {
+	spt("backend.AllocateIPv4")
+	p := f.planOf(s.ID)
+	if p.v4err {
 		return nil, nil, nil, errBackend
 	}
-	return f.v4, net.CIDRMask(24, 32), net.IPv4(10, 2, 0, 254).To4(), nil
+	if err := f.take(p.v4, s.ID); err != nil {
+		return nil, nil, nil, err
+	}
+	return p.v4, net.CIDRMask(24, 32), net.IPv4(10, 2, 0, 254).To4(), nil
 }
 func (f *dsAlloc) AllocateIPv6(ctx context.Context, s *subscriber.Session, pool string) (net.IP, *net.IPNet, error) {
-	if f.v6err {
+	spt("backend.AllocateIPv6")
+	p := f.planOf(s.ID)
+	if p.v6err {
 		return nil, nil, errBackend
 	}
-	return f.v6, &net.IPNet{IP: f.v6, Mask: net.CIDRMask(128, 128)}, nil
+	if err := f.take(p.v6, s.ID); err != nil {
+		return nil, nil, err
+	}
+	return p.v6, &net.IPNet{IP: p.v6, Mask: net.CIDRMask(128, 128)}, nil
 }
-func (f *dsAlloc) ReleaseIPv4(ctx context.Context, ip net.IP) error { return nil }
-func (f *dsAlloc) ReleaseIPv6(ctx context.Context, ip net.IP) error { return nil }
+func (f *dsAlloc) release(ip net.IP) error {
+	f.mu.Lock()
+	delete(f.held, ip.String())
+	f.mu.Unlock()
+	return nil
+}
+func (f *dsAlloc) ReleaseIPv4(ctx context.Context, ip net.IP) error {
+	spt("backend.ReleaseIPv4")
+	defer spt("backend.ReleaseIPv4/return")
+	return f.release(ip)
+}
+func (f *dsAlloc) ReleaseIPv6(ctx context.Context, ip net.IP) error {
+	spt("backend.ReleaseIPv6")
+	defer spt("backend.ReleaseIPv6/return")
+	return f.release(ip)
+}
 
 type dsSys struct {
+	// conc (Engine B): no per-operation acceptance checks (another thread may legitimately hold the key
+	// at that moment); only the end-state Check applies.
+	conc  bool
 	m     *subscriber.Manager
 	fa    *dsAlloc
 	ents  []string
 	ids   map[string]string // entity -> session id
+	macOf map[string]int    // entity -> index of the MAC it connected with
 	bk    sync.Mutex
 	last  string
 	viols []explore.Viol
 }
 
 func newDsSys(n int) *dsSys {
-	fa := &dsAlloc{}
-	return &dsSys{m: subscriber.NewManager(subscriber.ManagerConfig{MaxSessions: 100}, nil, fa, zap.NewNop()), fa: fa, ents: xEnts[:n], ids: map[string]string{}}
+	fa := &dsAlloc{plan: map[string]dsPlan{}, held: map[string]string{}}
+	return &dsSys{m: subscriber.NewManager(subscriber.ManagerConfig{MaxSessions: 100}, nil, fa, zap.NewNop()), fa: fa, ents: xEnts[:n], ids: map[string]string{}, macOf: map[string]int{}}
 }
 
 func (s *dsSys) v(kind, site, f string, a ...any) {
@@ -77,7 +139,9 @@ func (s *dsSys) v(kind, site, f string, a ...any) {
 }
 
 func (s *dsSys) sess(e string) *subscriber.Session {
+	s.bk.Lock()
 	id, ok := s.ids[e]
+	s.bk.Unlock()
 	if !ok {
 		return nil
 	}
@@ -141,22 +205,30 @@ func (s *dsSys) Apply(op string) string {
 	ctx := context.Background()
 	e := args[0]
 	switch name {
-	case "Create":
-		mac := xMACs[0]
+	case "Create", "CreateM": // CreateM(e,k): entity e connects with MAC #k (e.g. the MAC of a session being torn down)
+		mi := 0
 		for i, x := range s.ents {
 			if x == e {
-				mac = xMACs[i]
+				mi = i
 			}
 		}
-		x, err := s.m.CreateSession(ctx, &subscriber.SessionRequest{MAC: mac, Type: subscriber.SessionTypeIPoE})
+		if name == "CreateM" {
+			fmt.Sscan(args[1], &mi)
+		}
+		x, err := s.m.CreateSession(ctx, &subscriber.SessionRequest{MAC: xMACs[mi], Type: subscriber.SessionTypeIPoE})
 		if err != nil {
-			s.v("reusable", name, "%s refused although the MAC identifies no live session: %v", op, err)
+			if !s.conc {
+				s.v("reusable", name, "%s refused although the MAC identifies no live session: %v", op, err)
+			}
 			return "err"
 		}
+		s.bk.Lock()
 		s.ids[e] = x.ID
+		s.macOf[e] = mi
+		s.bk.Unlock()
 		return "ok"
 	case "Assign":
-		*s.fa = dsAlloc{}
+		var pl dsPlan
 		p4, p6 := "", ""
 		set := func(arg string, univ []net.IP, ip *net.IP, fail *bool, pool *string) {
 			switch arg {
@@ -169,15 +241,28 @@ func (s *dsSys) Apply(op string) string {
 				*ip, *pool = univ[i], "pool"
 			}
 		}
-		set(args[1], dV4, &s.fa.v4, &s.fa.v4err, &p4)
-		set(args[2], dV6, &s.fa.v6, &s.fa.v6err, &p6)
-		if err := s.m.AssignAddress(ctx, s.ids[e], p4, p6); err != nil {
+		set(args[1], dV4, &pl.v4, &pl.v4err, &p4)
+		set(args[2], dV6, &pl.v6, &pl.v6err, &p6)
+		s.bk.Lock()
+		id := s.ids[e]
+		s.bk.Unlock()
+		s.fa.mu.Lock()
+		s.fa.plan[id] = pl
+		s.fa.mu.Unlock()
+		if err := s.m.AssignAddress(ctx, id, p4, p6); err != nil {
 			return "err"
 		}
 		return "ok"
 	case "Terminate":
-		err := s.m.TerminateSession(ctx, s.ids[e], subscriber.TerminateAdminReset)
-		delete(s.ids, e)
+		s.bk.Lock()
+		id := s.ids[e]
+		s.bk.Unlock()
+		err := s.m.TerminateSession(ctx, id, subscriber.TerminateAdminReset)
+		s.bk.Lock()
+		if s.ids[e] == id {
+			delete(s.ids, e)
+		}
+		s.bk.Unlock()
 		if err != nil {
 			return "err"
 		}
@@ -187,7 +272,10 @@ func (s *dsSys) Apply(op string) string {
 }
 
 func (s *dsSys) Fingerprint() string {
-	d := deepdump.Dump(s.m, deepdump.Options{IgnoreTimes: true, SkipTypes: map[string]bool{"subscriber.ManagerStats": true, "subscriber.ManagerConfig": true, "c20.dsAlloc": true}})
+	s.fa.mu.Lock()
+	held := fmt.Sprint(s.fa.held)
+	s.fa.mu.Unlock()
+	d := deepdump.Dump(s.m, deepdump.Options{IgnoreTimes: true, SkipTypes: map[string]bool{"subscriber.ManagerStats": true, "subscriber.ManagerConfig": true, "c20.dsAlloc": true}}) + held
 	for e, id := range s.ids {
 		d = strings.ReplaceAll(d, id, e)
 	}
@@ -206,11 +294,14 @@ func (s *dsSys) entOf(id string) string {
 func (s *dsSys) Check() []explore.Viol {
 	site := func(ix string) string { return s.last + "/" + ix }
 	// forward -> reverse
-	for i, e := range s.ents {
+	macHolders := map[int][]string{}
+	for _, e := range s.ents {
 		x := s.sess(e)
 		if x == nil {
 			continue
 		}
+		i := s.macOf[e]
+		macHolders[i] = append(macHolders[i], e)
 		if g, ok := s.m.GetSessionByMAC(xMACs[i]); !ok || g != x {
 			s.v("reverse-missing", site("byMAC"), "%s is live with MAC %s but the by-MAC lookup gives %v (found=%v)", e, xMACs[i], g, ok)
 		}
@@ -221,6 +312,11 @@ func (s *dsSys) Check() []explore.Viol {
 			if g, ok := s.m.GetSessionByIP(ip); !ok || g != x {
 				s.v("reverse-missing", site("byIP"), "%s has %s %s but the by-IP lookup of it gives %v (found=%v)", e, fam, ip, g, ok)
 			}
+		}
+	}
+	for i, hs := range macHolders {
+		if len(hs) > 1 {
+			s.v("unique", site("byMAC"), "MAC %s identifies %d live sessions: %v", xMACs[i], len(hs), hs)
 		}
 	}
 	// reverse -> forward
